@@ -1053,7 +1053,35 @@ pub fn rec_indent(ch: &mut Chunker, s: &str, p: &str) {
     ch.push(ev);
 }
 
+/// a margin of 1-3 characters drawn from *all* Unicode whitespace (minus line breaks)
+fn rand_margin(r: &mut Rng) -> String {
+    let ws: Vec<char> = UNICODE_WS.iter().copied().filter(|c| !matches!(c, '\u{b}' | '\u{c}' | '\u{85}' | '\u{2028}' | '\u{2029}')).collect();
+    (0..r.range(1, 3)).map(|_| *r.pick(&ws)).collect()
+}
+
 fn gen_margin_text(r: &mut Rng) -> String {
+    if r.chance(1, 3) {
+        // margins that share a prefix and diverge at different whitespace characters
+        let common = rand_margin(r);
+        let n = r.range(2, 5);
+        let mut s = String::new();
+        for i in 0..n {
+            match r.below(8) {
+                0 => s.push_str(&rand_margin(r)),
+                _ => {
+                    s.push_str(&common);
+                    if r.chance(1, 2) {
+                        s.push_str(&rand_margin(r));
+                    }
+                    s.push_str(*r.pick(&["foo", "x", "\u{4f60}", "bar baz"]));
+                }
+            }
+            if i + 1 < n || r.chance(1, 2) {
+                s.push('\n');
+            }
+        }
+        return s;
+    }
     let margins = ["", " ", "  ", "    ", "\t", " \t", "\t ", "  \t", "\u{a0}", "\u{3000} ", "   "];
     let bodies = ["foo", "bar baz", "x", "  y", "\tz", "end ", "a\tb", "\u{4f60}", ""];
     let n = r.range(1, 6);
@@ -1095,7 +1123,7 @@ fn gen_c18(ch: &mut Chunker, r: &mut Rng, thorough: bool, scale: usize) {
 }
 
 fn gen_c19(ch: &mut Chunker, r: &mut Rng, thorough: bool, scale: usize) {
-    let prefixes = ["", " ", "# ", "\t", "//  ", "> ", "  ", "\u{4f60} ", "\u{a0}", "x"];
+    let prefixes = ["", " ", "# ", "\t", "//  ", "> ", "  ", "\u{4f60} ", "\u{a0}", "x", " * ", "    // ", "\t# ", " x", "\u{a0}-\u{3000}", "\u{2003}|\u{2003}"];
     for s in all_strings(&['a', ' ', '\t', '\n', '\r'], if thorough { 6 } else { 5 }) {
         for (k, p) in prefixes.iter().enumerate() {
             if thorough || (s.len() + k) % 3 == 0 {
@@ -1105,6 +1133,14 @@ fn gen_c19(ch: &mut Chunker, r: &mut Rng, thorough: bool, scale: usize) {
     }
     for i in 0..1200 * scale {
         let s = if i % 4 == 0 { gen_alpha(r, &['a', ' ', '\t', '\n', '\r', '\u{a0}', '\u{4f60}', '-'], 16) } else { gen_margin_text(r) };
+        if i % 3 == 0 {
+            // a random prefix mixing whitespace and other characters in every position
+            let p: String = (0..r.range(1, 4)).map(|_| if r.chance(1, 2) { *r.pick(UNICODE_WS) } else { rand_cp(r) }).collect();
+            if !p.contains('\n') {
+                rec_indent(ch, &s, &p);
+                continue;
+            }
+        }
         rec_indent(ch, &s, *r.pick(&prefixes));
     }
 }
@@ -1192,6 +1228,14 @@ fn gen_c04(ch: &mut Chunker, r: &mut Rng, thorough: bool, scale: usize) {
     for _ in 0..200 * scale {
         let tc = TextCfg { max_words: 6, max_paras: 4, ansi: Ansi::Any, unicode: true, ctrl: true, crlf: true };
         texts.push(gen_text(r, &tc));
+    }
+    // margins made of every kind of Unicode whitespace, random scalar values, sequences with random payloads
+    for i in 0..400 * scale {
+        texts.push(match i % 3 {
+            0 => gen_margin_text(r),
+            1 => format!("{} {}{}", rand_word(r, 5), rand_word(r, 4), rand_seq(r)),
+            _ => format!("{}{}-{}\n{}", rand_margin(r), rand_word(r, 3), rand_word(r, 3), gen_margin_text(r)),
+        });
     }
     let ocfg = OptCfg { indents: true, custom_splitters: false, algs: &[0, 1, 2], crlf: true };
     for (i, t) in texts.iter().enumerate() {
